@@ -115,6 +115,8 @@ def _verify_cases_cfg(draw):
     c = draw(_verify_cases())
     c["config"] = draw(st.one_of(st.none(), configrun.configs))
     c["dead_stdout"] = draw(st.sampled_from([0, 0, 1, 2, 3]))
+    # the encodings a JSON text may come in (RFC 8259 / what editors and shells on other platforms write): the tool reads them all
+    c["encoding"] = draw(st.sampled_from([None, None, None, "utf-8-sig", "utf-16", "utf-32", "utf-16-le", "utf-16-be", "utf-32-be"]))
     return c
 
 
@@ -230,6 +232,15 @@ def _write_pair(d, case):
                 f.write(canon(doc))
             except TypeError:
                 f.write(json.dumps(doc, default=str).encode())
+    enc = case.get("encoding")
+    if enc and case["kind"] != "malformed":
+        for fn, doc in ((tf, case["T"]), (uf, case["U"])):
+            try:
+                text = json.dumps(doc, ensure_ascii=True, indent=2)
+            except (TypeError, ValueError):
+                continue
+            with open(fn, "wb") as f:
+                f.write(text.encode(enc))
     if case["kind"] == "malformed":
         fn = tf if case["side"] == "T" else uf
         if not isinstance(case["T" if case["side"] == "T" else "U"], dict):
@@ -333,7 +344,7 @@ def check_verify(case):
     finally:
         shutil.rmtree(d, ignore_errors=True)
     return {"nontrivial": True, "labels": ["kind=" + case["kind"], "flaw=" + str(case["flaw"]), "library=" + ("accept" if want == "accept" else "reject"),
-                                           "configured" if case.get("config") else "default-config"],
+                                           "configured" if case.get("config") else "default-config", "encoding=%s" % (case.get("encoding") or "utf-8")],
             "count": {"processes": 3}}
 
 
